@@ -42,6 +42,7 @@ PROPS = {
  "Envelope.resize_fock fixes the tensor order": "C10",
  "CompositeEnvelope.combine/resize_fock check membership by identity": "C17,C18",
  "an Expression operation checks its operands": "C15,C03",
+ "Envelope.measure on a combined envelope follows the Born rule": "C04,C05,C07,C13,C08",
 }
 log = subprocess.run(["git", "-C", "/repo", "log", "--reverse", "--format=%h\t%s", "3d47238..HEAD"], capture_output=True, text=True).stdout
 fixed = []
